@@ -40,9 +40,20 @@ def run_blocks(chk, exe, blocks, label):
 
 
 def note_mismatches(chk, blocks, mo, io, label, limit=20):
+    """model/implementation disagreements.  Ops on a zone whose load already raised undefined
+    behaviour (on either side) are not comparable — the C++ continues with wrapped values — and are skipped."""
     k = 0
     for b, m, i in zip(blocks, mo, io):
+        tainted = set()
         for l, a, c in zip(b, m, i):
+            p = l.split()
+            if l.startswith(('zone ', 'fixzone ', 'namezone ')) and (a.startswith('UB') or c.startswith('UB')):
+                tainted.add(p[1])
+                if canon(c).split()[:1] != a.split()[:1]:
+                    pass
+            elif len(p) > 1 and p[1] in tainted:
+                chk.count(label + ':skipped-after-UB-load')
+                continue
             if canon(c) != a:
                 k += 1
                 if len([x for x in chk.broken if x.startswith('correspondence')]) < limit:
